@@ -95,7 +95,15 @@ type G struct {
 	lastCfg           *Blob   // config of the image generated last
 	Alg               string
 	NoExt             bool // never generate external (URL) layers
+	ExtHost           string // host (optionally host:port) of external layer URLs; default ext.test
 	ArtifactAnnotMode int  // Artifact: 0 the serial annotation, 1 an empty annotations object, 2 none, 3 another annotation only
+}
+
+func (g *G) extHost() string {
+	if g.ExtHost != "" {
+		return g.ExtHost
+	}
+	return "ext.test"
 }
 
 func New(t *simrt.Tape) *G { return &G{T: t, MaxBlob: 600, Alg: "sha256"} }
@@ -228,7 +236,7 @@ func (g *G) Image(docker bool) *Node {
 				mt = MTDockerForeign
 			}
 			b := &Blob{Data: data, External: true, Desc: Desc{MediaType: mt, Digest: regmodel.Digest(g.Alg, data), Size: len(data),
-				URLs: []string{"https://ext.test/ext/" + regmodel.Digest(g.Alg, data)}}}
+				URLs: []string{"https://" + g.extHost() + "/ext/" + regmodel.Digest(g.Alg, data)}}}
 			n.Blobs = append(n.Blobs, b)
 			layers = append(layers, b.Desc)
 		case 7: // duplicate of the previous layer
